@@ -52,6 +52,7 @@ registry! {
     c26::C26,
     c28::C28,
     c29::C29,
+    c30::C30,
     c31::C31,
     c32::C32,
     c33::C33,
